@@ -136,6 +136,7 @@ def main():
                          "dt0": 0.05, "clip": ck.rng.random() < 0.5}
         # tame polynomial fields only: keep the solution bounded on [t0, t0+1/2]
         c["f"] = [[[Fr(cf) / 4, ex] for cf, ex in p] for p in c["f"]]
+        gen.bound_field(c, max(abs(t0), abs(t0 + Fr(1, 2))) + Fr(1, 2))     # provably no finite-time blow-up (no hanging solve)
         acases.append(c)
     afacs = [Fr(2) ** ck.rng.choice([-10, -3, 3, 10]) for _ in acases]
     metamorphic(ck, acases, afacs, adaptive=True)
